@@ -579,6 +579,34 @@ func c03CSV(c *Ctx, r *Report) {
 		}
 		r.Check(flush >= 0 && closeN >= 0 && fg.Dominates(flush, closeN), rule, fi.Name, "Flush before Close", c.Pos(fi.Decl.Pos()), "order: Flush dominates closing the file", "the CSV file is closed without (or before) flushing the buffered writer: the tail of the export is lost")
 	}
+	// WriteAccumulator: group parts may be longer than the group columns (a group value that holds separators);
+	// the data columns must be copied after them (or the parts copy must be bounded) so that data wins
+	if fi := c.MustFunc(r, rule, pkg, "WriteAccumulator"); fi != nil {
+		fg := NewFGraph(fi.Decl.Body, info)
+		parts, data := -1, -1
+		bounded := false
+		for _, nd := range fg.Nodes {
+			if nd.N == nil {
+				continue
+			}
+			for _, ce := range callsIn(nd.N) {
+				if calleeName(info, ce) != "builtin.copy" || len(ce.Args) != 2 {
+					continue
+				}
+				if strings.Contains(exprStr(ce.Args[1]), ".Parts()") {
+					parts = nd.ID
+					if sx, ok := ast.Unparen(ce.Args[0]).(*ast.SliceExpr); ok && sx.High != nil {
+						bounded = true
+					}
+				} else if sx, ok := ast.Unparen(ce.Args[0]).(*ast.SliceExpr); ok && sx.Low != nil {
+					data = nd.ID
+				}
+			}
+		}
+		if parts >= 0 && data >= 0 {
+			r.Check(bounded || fg.Dominates(parts, data), rule, fi.Name, "group parts before data columns", c.Pos(fi.Decl.Pos()), "order: data columns are written after (over) the group parts", "the group parts are copied into the row after the data columns without a bound: a group value that holds separators overwrites the accumulator columns in the export")
+		}
+	}
 	// TryWriteCSV closes the writer (deferred) on the success path
 	if fi := c.MustFunc(r, rule, "rare/cmd/helpers", "TryWriteCSV"); fi != nil {
 		hasDeferClose := false
